@@ -6,7 +6,7 @@ import ast
 
 from ..report import Cx, Ob, describe, obligation
 from ..rules import API, CONV, reftuple_args, where
-from ..terms import callee_name, concat_parts, is_const, op, show, subterms
+from ..terms import NONE, callee_name, concat_parts, is_const, op, show, subterms
 from .c02 import check_split
 
 describe(
@@ -456,7 +456,21 @@ def d5(cx: Cx, ob: Ob) -> None:
             if not okc:
                 ob.violate(v.qualname, where(v, line), f"with a converter Prefix._validate returns `{show(inner)[:60]}`, not converter.standardize_prefix(value, strict=True)", detail="standardize")
             elif not is_const(dict(inner[3]).get("strict"), True):
-                ob.violate(v.qualname, where(v, line), "Prefix._validate standardises without strict=True: unknown prefixes are accepted (None / passthrough) instead of rejected", detail="strict")
+                # the non-strict call is just as strict when its None result is turned into a ValueError by hand
+                kw_ = dict(inner[3])
+                by_hand = (
+                    not is_const(kw_.get("passthrough"), True)
+                    and any(g.kind == "guard" and g.a == ("cmp", "is", inner, NONE) and g.b is False for g in ctx.guards)
+                    and any(
+                        any(g.kind == "guard" and g.a == ("cmp", "is", inner, NONE) and g.b is True for g in rctx.guards)
+                        and (callee_name(rt) if op(rt) == "call" else "") and (callee_name(rt) == "ValueError" or cx.model.is_subclass(callee_name(rt), "ValueError"))
+                        for rt, rctx in s.raises()
+                    )
+                )
+                if by_hand:
+                    ob.site(f"{where(v, line)} {v.qualname}", "non-strict standardisation, None turned into ValueError by hand")
+                else:
+                    ob.violate(v.qualname, where(v, line), "Prefix._validate standardises without strict=True: unknown prefixes are accepted (None / passthrough) instead of rejected", detail="strict")
             elif is_const(dict(inner[3]).get("passthrough"), True):
                 ob.violate(v.qualname, where(v, line), "Prefix._validate passes passthrough=True", detail="passthrough")
     if not seen_none or not seen_conv:
